@@ -1990,6 +1990,12 @@ func flt_filterPreds(repo string, _ []string) (string, error) {
 	emitPairs("gen_node_is", "filters.go: nodeIs, tag -> test", nodeTab)
 	sb.WriteString("\n")
 
+	hs, err := t.emitHelpers(repo)
+	if err != nil {
+		return "", err
+	}
+	sb.WriteString(hs)
+
 	paths, err := t.dslPaths(repo + "/dsl/dsl.go")
 	if err != nil {
 		return "", err
